@@ -1,4 +1,5 @@
 import AmrK.Names
+import AmrK.HeaderRewriteProofs
 import AmrK.WritersSizes
 /-! # C11 — chef writes recipe(box) under the right names with true min/max
 
@@ -32,5 +33,30 @@ theorem field_rule (names kept new : List String) :
     (Names.chef names kept new).take (kept.filter (names.contains ·)).length = kept.filter (names.contains ·) ∧
     (Names.chef names kept new).drop (kept.filter (names.contains ·)).length = new :=
   Names.chef_split names kept new
+
+/-- **the output header**: for a good input header read under the limit `l`, the header chef writes (the executable
+    writer model `Header.rewriteOf`, compared byte for byte with every written `Header`) has levels `0 … l` and is read
+    back as: the new field table, and the input's time, domain bounds and - cut after level `l` - cell sizes, grid sizes,
+    step numbers, box counts and physical boxes (float tokens already in Python's shortest form) -/
+theorem output_header_keeps_mesh (Hin : Header.HData) (hin : Hin.Good) (l : Nat) (hl : l < Hin.levels.length)
+    (coord : Py.Bytes) (names : List Py.Bytes) :
+    let Hout := Header.rewriteOf id true (Hin.meta (l + 1)) coord names
+    let M := Hout.meta (l + 1)
+    Hout.levels.length = l + 1 ∧
+    M.fields = Header.tableOf names ∧ M.maxLevel = (l : Int) ∧ M.limitLevel = (l : Int) ∧ M.ndims = Hin.ndims ∧
+    M.time = Hin.time ∧ M.geoLo = Hin.geoLo ∧ M.geoHi = Hin.geoHi ∧
+    M.dx = Hin.dx.take (l + 1) ∧ M.gridSizes = (Hin.gridHi.take (l + 1)).map (·.map (· + 1)) ∧
+    M.steps = Hin.steps.take (l + 1) ∧
+    M.boxes = (Hin.levels.take (l + 1)).map (·.boxes) ∧
+    M.npoints = (Hin.levels.take (l + 1)).map (fun L => (L.boxes.length : Int)) :=
+  Header.rewrite_keeps_mesh Hin hin l hl true coord names
+
+/-- … and that written header is read back as its content whenever it passes the executable check `goodB`
+    (evaluated by the driver on every written header; any float formatting `fl`) -/
+theorem output_header_read_back (fl : Py.Bytes → Py.Bytes) (m : Header.Meta) (coord : Py.Bytes) (names : List Py.Bytes)
+    (hg : (Header.rewriteOf fl true m coord names).goodB = true) :
+    Header.parse (Header.render (Header.rewriteOf fl true m coord names)) none =
+      .ok ((Header.rewriteOf fl true m coord names).meta (Header.rewriteOf fl true m coord names).levels.length) :=
+  Header.rewrite_read_back fl true m coord names hg
 
 end C11
